@@ -4,6 +4,8 @@ package ringbuffer
 import (
 	"fmt"
 	"sync"
+
+	"github.com/bluenviron/gortsplib/v5/internal/verifyield"
 )
 
 // RingBuffer is a ring buffer.
@@ -47,6 +49,7 @@ func (r *RingBuffer) Close() {
 	}
 
 	r.mutex.Unlock()
+	verifyield.Point("ring.Close.beforeBroadcast")
 	r.cond.Broadcast()
 }
 
@@ -63,6 +66,7 @@ func (r *RingBuffer) Reset() {
 
 // Push pushes data at the end of the buffer.
 func (r *RingBuffer) Push(data any) bool {
+	verifyield.Point("ring.Push.beforeLock")
 	r.mutex.Lock()
 
 	if r.buffer[r.writeIndex] != nil {
@@ -75,6 +79,7 @@ func (r *RingBuffer) Push(data any) bool {
 
 	r.mutex.Unlock()
 
+	verifyield.Point("ring.Push.beforeBroadcast")
 	r.cond.Broadcast()
 
 	return true
@@ -83,6 +88,7 @@ func (r *RingBuffer) Push(data any) bool {
 // Pull pulls data from the beginning of the buffer.
 func (r *RingBuffer) Pull() (any, bool) {
 	for {
+		verifyield.Point("ring.Pull.beforeLock")
 		r.mutex.Lock()
 
 		data := r.buffer[r.readIndex]
@@ -91,6 +97,7 @@ func (r *RingBuffer) Pull() (any, bool) {
 			r.buffer[r.readIndex] = nil
 			r.readIndex = (r.readIndex + 1) % r.size
 			r.mutex.Unlock()
+			verifyield.Point("ring.Pull.gotItem")
 			return data, true
 		}
 
@@ -99,6 +106,7 @@ func (r *RingBuffer) Pull() (any, bool) {
 			return nil, false
 		}
 
+		verifyield.Point("ring.Pull.wait")
 		r.cond.Wait()
 
 		r.mutex.Unlock()
